@@ -12,7 +12,8 @@ Record sf_params := {
   sf_records_first : bool;    (* Start: `c.runner = runner` precedes runner.Start(ctx) *)
   sf_kill_forces : bool;      (* Kill: runner.Kill is called on the non-graceful path *)
   sf_kill_removes_dir : bool; (* Kill: the deferred function removes the socket directory *)
-  sf_kill_forgets : bool      (* Kill: the deferred function sets c.runner = nil *)
+  sf_kill_forgets : bool;     (* Kill: the deferred function sets c.runner = nil *)
+  sf_start_kill_ctx_fresh : bool   (* Start: the clean-up's runner.Kill gets context.Background(), not the start context *)
 }.
 
 Record sf_client := {
